@@ -61,3 +61,24 @@ E('C02', 'rename temporaries', (CALC, 'a0_tol = _get_tolerance(a0)\n    h_tol = 
 E('C02', 'closed test as two stores', (CALC, '        idx[(idx < 0) | (idx >= len(bins))] = -1', '        idx[idx >= len(bins)] = -1\n        idx[idx < 0] = -1'))
 E('C02', 'positional right_continuous', (CAT, 'idx = bin1d_vec(self.get_magnitudes(), mag_bins, tol=tol, right_continuous=True)', 'idx = bin1d_vec(self.get_magnitudes(), mag_bins, tol, True)'))
 E('C02', 'rint for round', (CALC, 'start = numpy.round(scale * start)', 'start = numpy.rint(scale * start)'))
+
+# ------------------------------------------------------------------------------------------------ C09
+M('C09', 'GE searchsorted right', 'C09-D2', (STA, 'return eyc[numpy.searchsorted(ex, val)]', "return eyc[numpy.searchsorted(ex, val, side='right')]"))
+M('C09', 'LE lost -1', 'C09-D2', (STA, "return ey[numpy.searchsorted(ex, val, side='right') - 1]", "return ey[numpy.searchsorted(ex, val, side='right')]"))
+M('C09', 'LE side left', 'C09-D2', (STA, "return ey[numpy.searchsorted(ex, val, side='right') - 1]", "return ey[numpy.searchsorted(ex, val, side='left') - 1]"))
+M('C09', 'GE un-reversed', 'C09-D2', (STA, 'eyc = ey[::-1]', 'eyc = ey'))
+M('C09', 'GE short-circuit >=', 'C09-D2', (STA, '    if val > ex[-1]:\n        return 0.0', '    if val >= ex[-1]:\n        return 0.0'))
+M('C09', 'LE short-circuit <=', 'C09-D2', (STA, '    if val < ex[0]:\n        return 0.0', '    if val <= ex[0]:\n        return 0.0'))
+M('C09', 'GE short-circuit removed', 'C09-D2', (STA, '    if val > ex[-1]:\n        return 0.0\n', ''))
+M('C09', 'LE lower short-circuit removed', 'C09-D2', (STA, '    if val < ex[0]:\n        return 0.0\n', ''))
+M('C09', 'GE short-circuit value swapped', 'C09-D2', (STA, '    if val > ex[-1]:\n        return 0.0\n    if val < ex[0]:\n        return 1.0', '    if val > ex[-1]:\n        return 1.0\n    if val < ex[0]:\n        return 0.0'))
+M('C09', 'ecdf ramp from 0', 'C09-D2', (STA, 'ys = numpy.arange(1, len(x) + 1) / float(len(x))', 'ys = numpy.arange(0, len(x)) / float(len(x))'))
+M('C09', 'get_quantiles swapped pair', 'C09-D3', (STA, 'return delta_1, delta_2', 'return delta_2, delta_1'))
+M('C09', 'get_quantiles swapped args', 'C09-D3', (STA, 'delta_1 = greater_equal_ecdf(sim_counts, obs_count)', 'delta_1 = greater_equal_ecdf(obs_count, sim_counts)'))
+M('C09', 'empty guard removed', 'C09-D3', (STA, "    x = numpy.asarray(x)\n    if x.shape[0] == 0:\n        return None\n    if not cdf:\n        ex, ey = ecdf(x)\n    else:\n        ex, ey = cdf\n\n    eyc", "    x = numpy.asarray(x)\n    if not cdf:\n        ex, ey = ecdf(x)\n    else:\n        ex, ey = cdf\n\n    eyc"))
+M('C09', 'value arithmetic', 'C09-D1', (STA, "return ey[numpy.searchsorted(ex, val, side='right') - 1]", "return ey[numpy.searchsorted(ex, val + 1e-9, side='right') - 1]"))
+M('C09', 'binned uses GE', 'C09-D3', (STA, 'lambda val: less_equal_ecdf(x, val, cdf=(ex, ey))', 'lambda val: greater_equal_ecdf(x, val, cdf=(ex, ey))'))
+E('C09', 'GE as 1 - ey[L-1] guarded', (STA, '    return eyc[numpy.searchsorted(ex, val)]', '    return eyc[numpy.searchsorted(ex, val, side=\'left\')]'))
+E('C09', 'len for shape', (STA, "    x = numpy.asarray(x)\n    if x.shape[0] == 0:\n        return None\n    if not cdf:\n        ex, ey = ecdf(x)\n    else:\n        ex, ey = cdf\n    # some", "    x = numpy.asarray(x)\n    if len(x) == 0:\n        return None\n    if not cdf:\n        ex, ey = ecdf(x)\n    else:\n        ex, ey = cdf\n    # some"))
+E('C09', 'flip for [::-1]', (STA, 'eyc = ey[::-1]', 'eyc = numpy.flip(ey)'))
+E('C09', 'ramp without float()', (STA, 'ys = numpy.arange(1, len(x) + 1) / float(len(x))', 'n = len(x)\n    ys = numpy.arange(1, n + 1) / n'))
